@@ -17,16 +17,28 @@ SPEC = {
         "keep-going run (requests during the initial scan, no stop from outside, no asyncError) on an acyclic graph ends "
         "Final with the task counter at 0, sets the exit flag iff some target failed, reports every requested target exactly "
         "once - as failed/dependency-failed exactly when it failed or transitively depends on a failed target, built/cached "
-        "otherwise (state Built). PARTIAL, explicitly: the parse phase - SyncParsePackage / "
+        "otherwise (state Built). Liveness outside the task counting (three repaired hangs, /repo 377a4ab, ed8e9e3, 52b6f63): "
+        "the model carries forwardResults' set of active targets, which arms the idle-time cycle check only while empty, and the "
+        "goroutines waiting for a target in WaitForBuiltTarget (the parse of a package that subincludes it), woken through pendingTargets; "
+        "how a FAILED target is treated by each (failure results clear the active set; build.Build signals the waiters; a target that has "
+        "already failed is not waited for) is read from the code as facts. With those facts: on ANY graph, cycles included, keep-going or "
+        "not, every reachable state is final, or has an enabled step, or has the cycle check enabled, which closes the queues and sets "
+        "the exit flag (C05_no_deadlock_with_cycle_check, C05_keep_going_terminates: every maximal execution is finite and ends Final); "
+        "on acyclic graphs no_deadlock covers the waiters and a maximal keep-going run leaves no goroutine waiting "
+        "(C05_waiters_all_released). For each repaired defect a kernel-checked witness that under the OLD fact value the model reaches "
+        "a state that only an external Stop can change (C05_old_active_set_blocks_cycle_check, C05_old_failed_subinclude_never_wakes_waiter, "
+        "C05_old_waiter_after_failure_waits_for_ever) and the repaired counterpart (C05_failure_and_cycle_ends_by_cycle_check, "
+        "C05_failed_subinclude_run_ends). PARTIAL, explicitly: the parse phase - SyncParsePackage / "
         "WaitForPackage waiters, ErrMap.GetOrSet subinclude waiters, parse tasks - is NOT in the model (three of the five "
         "anchors); the hang the property is motivated by (waiter on a package whose parse failed) is excluded by no theorem; "
+        "(the WaitForBuiltTarget waiters ARE modelled, abstractly: one waiter per target, its parse task counted during the initial scan); "
         "those functions are pinned as skeleton facts and exercised end to end only (syntax errors, missing packages, "
         "several waiters on one unparsable package, 60 s limit). Also outside the model: real time, the 5 s inactivity "
-        "timer, the cycle detector (C06), final states of runs stopped from outside (no --keep_going, cycle check, asyncError: only 'flag set' is proved), the translation of the flag into the process exit status (toExitCode, MonitorState; end to end only)."),
+        "timer (the cycle check may fire whenever no target is active), the cycle detector itself (C06; hypothesis: no cycle reported => acyclic), final states of runs stopped from outside (no --keep_going, cycle check, asyncError: only 'flag set' is proved), the translation of the flag into the process exit status (toExitCode, MonitorState; end to end only)."),
     "technique": "Lean 4 termination measure + liveness invariants + induction along the dependency order; end-to-end failure injection on the real plz binary",
     "trusted": [
-        "go/ast extractor harness/extract/c04 (skeletons of taskDone, Stop, asyncError, checkForCycles, queueTargetAsync, build.Build, plz.Run; parse phase: addPendingParse, LogParseResult, SyncParsePackage, WaitForPackage; output/targets.go handleOutput (the --keep_going stop site); initial numPending and queue sizes)",
-        "correspondence harness/cmd/c05 vs Driver/C05.lean: real plz runs with injected exit 1, undefined dependencies, syntax errors, missing packages, cycles of length 1..4, --keep_going on/off, -n 1,2,4,16, 60 s limit; the Lean driver replays the log through the model and computes the expected exit status independently",
+        "go/ast extractor harness/extract/c04 (skeletons of taskDone, Stop, asyncError, checkForCycles, queueTargetAsync, build.Build, plz.Run; parse phase: addPendingParse, LogParseResult, SyncParsePackage, WaitForPackage; forwardResults (skeleton + structured: key type of the active set, guards of add/delete, arming of the cycle check), LogBuildResult / TargetFailed / WaitForBuiltTarget (skeletons + structured: who closes pendingTargets when, Build's calls after SetState(Failed), the early-return condition); output/targets.go handleOutput (the --keep_going stop site); initial numPending and queue sizes)",
+        "correspondence harness/cmd/c05 vs Driver/C05.lean: real plz runs with injected exit 1, undefined dependencies, syntax errors, missing packages, cycles of length 1..4, a command failure together with a cycle elsewhere in the requested set, packages that subinclude a target that fails / whose dependency fails / that has already failed when the package is parsed (late add_dep) / that builds, --keep_going on/off, -n 1,2,4,16, 60 s limit; the Lean driver replays the log through the model and computes the expected exit status independently",
         "modelled, not verified: Model/Sched.lean (see C04)",
         "idealisations: wall-clock time is not modelled; plz exit status 0 vs non-zero only",
     ],
@@ -45,6 +57,17 @@ S3 seeded by the coordinator: `if t.State() >= Built { continue }` at the top of
      the driver's fireG then follows the code) AND on the real binary: started-after-dependency-failed on the raw log (warm
      case: trace ... warm=1 touch=0 ev=S0,S1,F1,E0,S3,E3 rc=2 - target 3 ran on the stale output of its dependency-failed
      dependency) and dependent-of-failed-target-was-run (fresh case: plz lists target 2 as failed, 'cannot calculate hash')
+R1 pre-fix tree 2a5162f (git worktree; = reverting 377a4ab, ed8e9e3, 52b6f63): VERIF_REPO=/tmp/c05old ./check C05 quick -> red: C05_facts_ok
+     broken (activeSet key:*BuildTarget / del guarded by target!=nil; no TargetFailed; return-at-once without the failed states) AND
+     VIOLATION with concrete replays: did-not-terminate-failure-and-cycle, did-not-terminate-failing-subinclude,
+     did-not-terminate-subinclude-of-already-failed-target (corpus/C05/fixed-*.ops and generated cases)
+R2 binary with 377a4ab+ed8e9e3 only (no 52b6f63): sub-late case -> did-not-terminate-subinclude-of-already-failed-target
+S5 round-2 seed: build.Build calls FinishBuild() before RemoveOutputs/SetState(Failed) on the failure path (dependants woken while the
+     target is still Building pass the DependencyFailed test) -> red on the binary built from the seeded tree with the warm
+     failure-with-slow-output-removal shape (first invocation leaves a 40000-file directory as the failing target's output), concrete
+     input `run deps=0:;1:0;2:1 pk=0,0,0 roots=2 n=4 kg=1 fail=0:exit ... warm=1 touch=1,2 big=0`: dependent-of-failed-target-was-run
+     (plz lists target 1 as failed, 'Error preparing sources ... no such file'); clean binary: S0,F0 rc=2 only. Also C05_facts_ok
+     (sk_Build, wakeFacts failed-then).
 A (see C04) no WaitForBuild                                     -> red there
 H (see C04) harmless renames + log line                         -> facts identical
 """
